@@ -56,6 +56,8 @@ void reg_put(int c, char *s, int ln)
 {
 	int i, i_ln;
 	char *i_s;
+	if (c == '"')
+		c = 0;
 	if ((ln || strchr(s, '\n')) && (!c || isalpha(c))) {
 		for (i = 8; i > 0; i--)
 			if ((i_s = reg_get('0' + i, &i_ln)))
